@@ -373,7 +373,7 @@ def b_macro(o):
 
 TYPE_SHAPES = ['int', 'utf8', 'local', 'foreign', 'unresolved', 'carray', 'carray_len', 'carray_fixed', 'carray_nozero',
                'carray_zero_len', 'garray', 'ptrarray', 'bytearray', 'list', 'slist', 'list_nested', 'map', 'map_bare',
-               'varargs', 'array_of_array', 'noctype', 'complete_ctype']
+               'varargs', 'array_of_array', 'noctype', 'complete_ctype', 'garray_fixed', 'ptrarray_len']
 
 
 def type_shape(shape):
@@ -412,6 +412,16 @@ def type_shape(shape):
         return a, True
     if shape == 'garray':
         return ast.Array('GLib.Array', INT(), ctype='GArray*'), False
+    if shape == 'garray_fixed':          # (array fixed-size=4) (element-type int) on a GArray*
+        a = ast.Array('GLib.Array', ast.Type(target_fundamental='gint'), ctype='GArray*')
+        a.zeroterminated = False
+        a.size = 4
+        return a, False
+    if shape == 'ptrarray_len':          # (array length=n) (element-type utf8) on a GPtrArray*
+        a = ast.Array('GLib.PtrArray', ast.Type(target_fundamental='utf8'), ctype='GPtrArray*')
+        a.zeroterminated = False
+        a.length_param_name = 'n'
+        return a, True
     if shape == 'ptrarray':
         return ast.Array('GLib.PtrArray', ast.Type(target_giname='Foo.Rec', ctype='FooRec*'), ctype='GPtrArray*'), False
     if shape == 'bytearray':
@@ -838,7 +848,7 @@ def ast_cases_of(kind, tier):
     # type shapes in every typed slot, with the slot's own attributes all-absent and all-present
     if kind in SHAPED:
         for shape in TYPE_SHAPES:
-            if shape in ('carray_len', 'carray_zero_len') and kind == 'property':
+            if shape in ('carray_len', 'carray_zero_len', 'ptrarray_len') and kind == 'property':
                 continue        # a property has no sibling to name as length
             if shape == 'varargs' and kind != 'parameter':
                 continue
